@@ -4,6 +4,7 @@
   Cancellation / deadline expiry is the environment action `cancel r`, enabled in every state, so
   quantifying over all action sequences covers every placement of the instant.
 -/
+import Proofs.C01
 import Proofs.Lemmas.InprocAll
 import Proofs.Lemmas.InprocUnaryAll
 
@@ -142,3 +143,39 @@ example : ∃ s, run (init 1)
   exact ⟨_, rfl, rfl⟩
 
 end InprocUnary
+
+/-! ### HTTP/1.1 client stream -/
+namespace HttpClientStream
+open InprocStream (Reason Res codeOf)
+
+/-- **HTTP: after the context ended, a receive is the cancellation status or the call's completed
+    final outcome** — never a non-status context error (the defect repaired by 81f3c90: the reader
+    records the context's status, not the I/O error the cancellation provoked). -/
+theorem C04_http_recv_after_cancel (s s' : St) (a : Act) (evs : List Ev) (r : Reason) (res : Res)
+    (hctx : s.ctx = some r) (ha : a = .cRecvBegin ∨ a = .cRecvCtx ∨ a = .cRecvClosed)
+    (hs : step s a = some (s', evs)) (hev : Ev.ret .cr res ∈ evs) :
+    res = .status (codeOf r) ∨ (s.done = true ∧ (res = finalOf s ∨ ∃ m, res = .msg m)) := by
+  rcases ha with rfl | rfl | rfl <;>
+    simp only [step] at hs <;> (repeat' split at hs) <;>
+    (try (simp only [Option.some.injEq, Prod.mk.injEq, reduceCtorEq] at hs)) <;>
+    (try (obtain ⟨rfl, rfl⟩ := hs)) <;> (try (exfalso; assumption)) <;> simp_all [ctxStatus]
+
+/-- the completion `defer`: an I/O error observed after the context ended is recorded as the
+    context's status -/
+theorem C04_http_complete_records_ctx_status (s : St) (e : Res) (r : Reason) (hre : s.rErr = none)
+    (hrd : s.rdErr = some e) (hctx : s.ctx = some r) : (complete s).rErr = some (.status (codeOf r)) := by
+  simp [complete, hre, hrd, hctx, ctxStatus]
+
+/-- **Promptly**: with the context done, a pending RecvMsg and a reader parked at the hand-off both
+    have their context branch enabled. -/
+theorem C04_http_cancel_unblocks (s : St) (r : Reason) (hctx : s.ctx = some r) :
+    (∀ m, s.cRecv = some m → m ≠ .violation → (step s .cRecvCtx).isSome) ∧ (s.pc = 2 → (step s .rdCtx).isSome) := by
+  refine ⟨?_, ?_⟩
+  · intro m hm hv
+    cases m with
+    | first => simp [step, hm, hctx]
+    | probe x => simp [step, hm, hctx]
+    | violation => exact absurd rfl hv
+  · intro h; simp [step, h, hctx]
+
+end HttpClientStream
